@@ -5,9 +5,11 @@ randmio_dir_signed / randmio_und_signed / null_model_dir_sign / null_model_und_s
 
 Direct oracle (independent of the library) on every clause of the property, on the final output and on
 the matrix after EVERY accepted swap ('swap' hook events).  Correspondence by stream replay: the extracted
-Coq model is fed the recorded rng.randint / rng.permutation draws (common.Rec) and, for the dealing phase,
-the np.argsort results captured by a recording proxy for the `np` name of bct.algorithms.reference (run
-time only, nothing in /repo is edited); it must then reproduce the implementation's matrices EXACTLY.
+Coq model is fed the recorded rng.randint / rng.permutation draws (common.Rec) and the float-decided values
+captured by a recording proxy for the `np` name of bct.algorithms.reference (np.argsort results, the result of
+np.allclose(W, W.T), the result of np.round(1/wei_freq); run time only, nothing in /repo is edited); it must then
+reproduce the implementation's matrices EXACTLY, consume exactly the recorded draws, and end the same way
+(return / BCTParamError / RecursionError / UFuncTypeError).
 """
 import math
 from fractions import Fraction as F
@@ -17,22 +19,31 @@ from common import *
 ID = 'C06'
 COQ_FILES = ['Base/Mat.v', 'Base/ListX.v', 'Model/Signed.v', 'Model/NullModel.v', 'Proofs/Signed.v',
              'Proofs/NullModelLists.v', 'Proofs/NullModel.v', 'Proofs/NullModelTop.v', 'Proofs/NullModelCorr.v',
-             'Properties/C06.v']
+             'Proofs/SignedFull.v', 'Proofs/NullModelCorrRange.v', 'Proofs/NullModelTotal.v', 'Properties/C06.v']
 THEOREMS = ['C06_pick4_distinct', 'C06_pick4_digits', 'C06_pick4_needs_4', 'C06_signed_step_inv', 'C06_signed_step_inv_general',
             'C06_signed_run_inv', 'C06_signed_run_inv_general', 'C06_deal_multiset_corr_def',
             'C06_null_model_inv_general', 'C06_null_model_rewiring_inv', 'C06_null_model_und_rejects',
-            'C06_corr3_var', 'C06_corr3_cov']
-RULE = ('signed integer matrices, weights in -4..4 \\ {0}, n = 4..9, densities 0.3-1.0, directed for *_dir / symmetric for '
-        '*_und; families: both signs present (mixed), one sign only, fully connected positive support (rewiring skipped), '
-        'sparse, all-equal magnitudes (many ties), nonzero input diagonal (null_model clears it); itr/bin_swaps in {0,1,2,5}, '
-        'wei_freq in {0, 0.1, 0.25, 0.3, 0.4, 0.5, 1}; plus asymmetric input to null_model_und_sign (rejection). '
+            'C06_corr3_var', 'C06_corr3_cov',
+            'C06_signed_run_diag_empty', 'C06_signed_run_selfloop_kept', 'C06_randmio_diag_refuted',
+            'C06_randmio_small_n_never_returns', 'C06_randmio_ret_sound', 'C06_null_model_total', 'C06_period_domain',
+            'C06_period_exact', 'C06_null_model_param_error_iff', 'C06_corr_cauchy_schwarz', 'C06_corr_r_squared_range',
+            'C06_corr_equal_seq', 'C06_null_model_corr_range', 'C06_null_model_corr_one', 'C06_null_model_checked_symmetry']
+RULE = ('signed matrices, n = 1..16 (mostly 4..9; n <= 3: the rewiring cannot return), weights: integers 1..4, dyadic k/8 (k = 1..40), '
+        'integers up to 1000, float or integer dtype; densities 0.3-1.0, directed for *_dir / symmetric for *_und; families: both signs '
+        '(mixed), one sign only, fully connected positive support (rewiring skipped), sparse, all-equal magnitudes (ties), nonzero input '
+        'diagonal, nearly symmetric (np.allclose decides) and asymmetric input for the *_und routines; itr/bin_swaps in {0,1,2,3,5,10}; '
+        'wei_freq in {0, 16 fixed values, uniform(0.02,1], 1.2, 1.5}; exhaustive small tier: all 3^6 sign patterns of a symmetric n=4 '
+        'network x all 24 first quads (randmio_und_signed; thorough: all, quick: a slice), every sign class of the four cells read by '
+        'the swap condition x 24 quads (randmio_dir_signed), all 3^6 patterns through null_model_und_sign. '
         'non-trivial = at least one accepted swap or at least two weights dealt; distinct by hash of (function, matrix, parameters, seed)')
-ASSUMES = ['weights are small integers: every float operation the model treats as exact (moves, sign tests, s*w, W0+W0.T, sums of strengths) is exact in binary64',
+ASSUMES = ['weights are dyadic rationals k/2^m with small k: every float operation the model treats as exact (moves, sign tests, s*w, W0+W0.T) is exact in binary64; the model runs on the integers k (fixed-point reading of Z)',
            'the recorded stream splits by kind: every rng.randint precedes the first rng.permutation (checked on each run)',
-           'np.argsort(P.flat[Lij]) is a float-decided order and is taken from the run (oracle); the model checks only that it is a permutation; the P / S / Si / So updates feeding it are not modelled',
-           'wei_freq values are such that np.round(1/wei_freq) equals the exact half-to-even rounding of the rational (checked per case)',
-           'returned correlations are compared with cxy/sqrt(cxx*cyy) of the exact integer strength sequences at relative tolerance 1e-9; NaN iff cxx*cyy = 0']
-TRUSTED = ['recording proxy for the module global `np` of bct.algorithms.reference during null_model_* calls (forwards every attribute, logs argsort results)']
+           'np.argsort(P.flat[Lij]) is a float-decided order and is taken from the run (oracle); the model checks only that it is a permutation; the P / S / Si / So updates feeding it are not modelled (except the UFuncTypeError they raise on an integer array)',
+           'np.allclose(W, W.T) and np.round(1/wei_freq) are float decisions taken from the run (oracles); the model checks the second against the exact quotient (within 1) and ignores the first for exactly symmetric input',
+           'returned correlations are compared with cxy/sqrt(cxx*cyy) of the exact rational strength sequences at relative tolerance 1e-9; NaN iff cxx*cyy = 0',
+           'itr / bin_swaps are non-negative integers (float values such as 0.5 are accepted by the code and not modelled)']
+TRUSTED = ['recording proxy for the module global `np` of bct.algorithms.reference during null_model_* calls (forwards every attribute, logs argsort / allclose / round results)',
+           'scripted first draw (a RandomState subclass returning a chosen randint first) in the exhaustive small tier']
 
 
 # ---------------------------------------------------------------- instrumentation
@@ -48,44 +59,130 @@ class NpProxy(object):
 
     def argsort(self, *a, **k):
         r = self._r.argsort(*a, **k)
-        self._log.append(np.asarray(r).tolist())
+        self._log['argsort'].append(np.asarray(r).tolist())
+        return r
+
+    def allclose(self, *a, **k):
+        r = self._r.allclose(*a, **k)
+        self._log['allclose'].append(bool(r))
+        return r
+
+    def round(self, *a, **k):
+        r = self._r.round(*a, **k)
+        self._log['round'].append(r)
         return r
 
 
-def with_argsort_log(f, *a, **k):
+def with_np_log(f, *a, **k):
+    """(result, exception, log): the call under the recording proxy"""
     import bct.algorithms.reference as ref
-    log = []
+    log = {'argsort': [], 'allclose': [], 'round': []}
     old = ref.np
     ref.np = NpProxy(old, log)
+    out = exc = None
     try:
-        out = call(f, *a, _t=20.0, **k)
+        out = call(f, *a, _t=30.0, **k)
+    except Timeout:
+        raise
+    except BaseException as e:
+        if isinstance(e, KeyboardInterrupt):
+            raise
+        exc = e
     finally:
         ref.np = old
-    return out, log
+    return out, exc, log
+
+
+class Scripted(Rec):
+    """Rec whose first randint results are prescribed (exhaustive tier: the first quad is chosen)"""
+
+    def __init__(self, seed, script):
+        super().__init__(seed)
+        self.script = list(script)
+
+    def randint(self, *a, **k):
+        if self.script:
+            v = self.script.pop(0)
+            self.log.append(('randint', a, k, int(v)))
+            return v
+        return super().randint(*a, **k)
 
 
 # ---------------------------------------------------------------- generators
-def gen_matrix(ctx, und, fam=None):
+def pick_n(r):
+    u = r.rand()
+    if u < 0.05:
+        return int(r.randint(1, 4))
+    if u < 0.13:
+        return int(r.randint(10, 17))
+    return int(r.randint(4, 10))
+
+
+def gen_matrix(ctx, und, fam=None, n=None, allow_int=True):
+    """-> dict(A = array handed to the routine, Z = the same matrix in units of 1/scale (python ints), scale, fam, isint)"""
     r = ctx.nprng
-    n = int(r.randint(4, 10))
+    n = n or pick_n(r)
     fam = fam or str(r.choice(['mixed', 'mixed', 'mixed', 'dense', 'sparse', 'pos_only', 'neg_only', 'pos_full', 'ties', 'diag']))
+    kind = str(r.choice(['int', 'int', 'dyadic', 'dyadic', 'big']))
+    scale = 8 if kind == 'dyadic' else 1
+    hi = {'int': 5, 'dyadic': 41, 'big': 1001}[kind]
     dens = {'mixed': float(r.choice([0.4, 0.6, 0.8])), 'dense': 1.0, 'sparse': 0.3, 'pos_only': 0.6, 'neg_only': 0.6,
             'pos_full': 1.0, 'ties': 0.7, 'diag': 0.6}[fam]
-    W = np.zeros((n, n), dtype=int)
+    tie = int(r.randint(1, hi))
+    Z = np.zeros((n, n), dtype=np.int64)
     for i in range(n):
         for j in range(n):
             if i == j or (und and j < i):
                 continue
             if r.rand() < dens:
-                mag = 2 if fam == 'ties' else int(r.randint(1, 5))
+                mag = tie if fam == 'ties' else int(r.randint(1, hi))
                 sg = 1 if fam in ('pos_only', 'pos_full') else -1 if fam == 'neg_only' else (1 if r.rand() < 0.55 else -1)
-                W[i, j] = sg * mag
+                Z[i, j] = sg * mag
     if und:
-        W = W + W.T
+        Z = Z + Z.T
     if fam == 'diag':
         for i in range(n):
-            W[i, i] = int(r.randint(-2, 3))
-    return W, fam
+            Z[i, i] = int(r.randint(-2, 3)) * (4 if kind == 'dyadic' else 1)
+    isint = bool(allow_int and scale == 1 and r.rand() < 0.3)
+    A = Z.astype(r.choice([np.int64, np.int32]) if isint else float)
+    if scale != 1:
+        A = A / float(scale)
+    return {'A': A, 'Z': Z.tolist(), 'scale': scale, 'fam': fam, 'isint': isint, 'kind': kind}
+
+
+def gen_nearsym(ctx):
+    """symmetric base with entries m*1024 (m = 1..4) and a few upper-triangle cells off by 1/128 or 2/128:
+    np.allclose (atol 1e-8, rtol 1e-5) accepts a difference of 1/128 always and of 2/128 only for m >= 2"""
+    r = ctx.nprng
+    n = int(r.randint(4, 9))
+    scale = 128
+    Z = np.zeros((n, n), dtype=np.int64)
+    for i in range(n):
+        for j in range(i + 1, n):
+            if r.rand() < 0.7:
+                Z[i, j] = Z[j, i] = (1 if r.rand() < 0.55 else -1) * int(r.randint(1, 5)) * 1024 * scale
+    cells = [(i, j) for i in range(n) for j in range(i + 1, n) if Z[i, j] != 0]
+    for k in range(int(r.randint(1, 4))):
+        if cells:
+            i, j = cells[int(r.randint(len(cells)))]
+            d = int(r.choice([1, 1, 1, -1, 2]))
+            if r.rand() < 0.5:
+                Z[i, j] += d
+            else:
+                Z[j, i] += d
+    return {'A': Z.astype(float) / scale, 'Z': Z.tolist(), 'scale': scale, 'fam': 'nearsym', 'isint': False, 'kind': 'nearsym'}
+
+
+def pattern_und4(code, mags):
+    """symmetric 4x4 matrix whose six upper cells carry the signs given by the base-3 digits of code (0: absent, 1: +, 2: -)"""
+    Z = np.zeros((4, 4), dtype=np.int64)
+    k = 0
+    for i in range(4):
+        for j in range(i + 1, 4):
+            d = code // 3 ** k % 3
+            Z[i, j] = Z[j, i] = (0, 1, -1)[d] * mags[k]
+            k += 1
+    return Z
 
 
 # ---------------------------------------------------------------- direct oracle (property text)
@@ -95,28 +192,29 @@ def degs(M):
             [sum(1 for i in range(n) if M[i][j] > 0) for j in range(n)], [sum(1 for i in range(n) if M[i][j] < 0) for j in range(n)])
 
 
-def oracle_matrix(ctx, fn, A, R, und, case, what='', diag_clause='empty'):
-    """every matrix clause of the property for output R against input A (lists of python ints/floats)"""
+def oracle_matrix(ctx, fn, A, R, und, case, what='', selfloops='cleared'):
+    """every matrix clause of the property for output R against input A (lists of python numbers; weights are compared
+    exactly: the routines only move them).  selfloops: what the routine does with input self-connections --
+    'cleared' (null models; A is given with the diagonal already cleared) or 'kept' (randmio_*_signed)."""
     n = len(A)
-    Ai = [[int(x) for x in row] for row in A]
     ok = True
-    if not all(float(x) == int(x) for row in R for x in row):
-        ctx.fail(fn + ':weights', what + 'non-integer entry in the output of an integer input', case)
-        return False
-    Ri = [[int(x) for x in row] for row in R]
-    da, dr = degs(Ai), degs(Ri)
+    da, dr = degs(A), degs(R)
     for k, nm in enumerate(('pos_out', 'neg_out', 'pos_in', 'neg_in')):
         ok &= ctx.check(da[k] == dr[k], fn + ':degree', what + '%s degrees differ: input %s output %s' % (nm, da[k], dr[k]), case)
     for sg, nm in ((1, 'positive'), (-1, 'negative')):
-        a = sorted(x for row in Ai for x in row if x * sg > 0)
-        b = sorted(x for row in Ri for x in row if x * sg > 0)
+        a = sorted(x for row in A for x in row if x * sg > 0)
+        b = sorted(x for row in R for x in row if x * sg > 0)
         ok &= ctx.check(a == b, fn + ':weights', what + 'multiset of %s weights differs: input %s output %s' % (nm, a, b), case)
-    if diag_clause == 'empty':
-        ok &= ctx.check(all(Ri[i][i] == 0 for i in range(n)), fn + ':diag', what + 'diagonal not empty', case)
-    else:
-        ok &= ctx.check(all(Ri[i][i] == Ai[i][i] for i in range(n)), fn + ':diag', what + 'diagonal changed', case)
+    if not all(R[i][i] == 0 for i in range(n)):
+        # the property text asks for an empty diagonal.  randmio_*_signed keep input self-connections (C06_randmio_diag_refuted):
+        # that exact behaviour on an input WITH self-connections is the recorded finding; anything else is a fresh violation
+        if selfloops == 'kept' and any(A[i][i] != 0 for i in range(n)) and all(R[i][i] == A[i][i] for i in range(n)):
+            ctx.fail(fn + ':diag_selfloop_input', what + 'input self-connections are kept: the diagonal of the output is not empty', case)
+        else:
+            ok = False
+            ctx.fail(fn + ':diag', what + 'diagonal not empty', case)
     if und:
-        ok &= ctx.check(all(Ri[i][j] == Ri[j][i] for i in range(n) for j in range(n)), fn + ':sym', what + 'symmetric input gave asymmetric output', case)
+        ok &= ctx.check(all(R[i][j] == R[j][i] for i in range(n) for j in range(n)), fn + ':sym', what + 'symmetric input gave asymmetric output', case)
     return ok
 
 
@@ -127,13 +225,23 @@ def corr3(x, y):
 
 
 def strengths(M):
-    """the four strength sequences (pos_in, pos_out, neg_in, neg_out) of an integer matrix"""
+    """the four strength sequences (pos_in, pos_out, neg_in, neg_out), exact"""
     n = len(M)
+    M = [[F(x) for x in row] for row in M]
     pin = [sum(M[i][j] for i in range(n) if M[i][j] > 0) for j in range(n)]
     pou = [sum(M[i][j] for j in range(n) if M[i][j] > 0) for i in range(n)]
     nin = [sum(-M[i][j] for i in range(n) if M[i][j] < 0) for j in range(n)]
     nou = [sum(-M[i][j] for j in range(n) if M[i][j] < 0) for i in range(n)]
     return pin, pou, nin, nou
+
+
+def corr_value(c3):
+    cxy, cxx, cyy = c3
+    if cxx * cyy == 0:
+        return float('nan')
+    sc = 1
+    q = F(cxx * cyy)
+    return float(F(cxy)) / math.sqrt(float(q)) if q < 10 ** 300 else float(F(cxy) / F(math.isqrt(int(q))))
 
 
 def corr_close(c3, x):
@@ -142,11 +250,19 @@ def corr_close(c3, x):
         return bool(np.isnan(x))
     if not np.isfinite(x):
         return False
-    return abs(cxy / math.sqrt(cxx * cyy) - float(x)) <= 1e-9
+    return abs(corr_value(c3) - float(x)) <= 1e-9
 
 
 def clear_diag(A):
-    return [[0 if i == j else int(A[i][j]) for j in range(len(A))] for i in range(len(A))]
+    return [[0 if i == j else A[i][j] for j in range(len(A))] for i in range(len(A))]
+
+
+def unscale(M, scale):
+    return (np.array(M, dtype=float) / scale) if scale != 1 else np.array(M, dtype=float)
+
+
+WFS = [0.0, 0.0, 0.05, 0.1, 0.1, 0.15, 0.2, 0.25, 0.3, 1 / 3., 0.4, 0.5, 0.5, 0.6, 2 / 3., 0.7, 0.75, 0.9, 1.0, 1.0, 2 / 7., 2 / 9., 1.2, 1.5]
+ITRS = [0, 1, 1, 2, 2, 3, 5, 10]
 
 
 # ---------------------------------------------------------------- main
@@ -158,8 +274,8 @@ def run(ctx):
     lines, pend = [], []
 
     # ---------- pick_four_unique_nodes_quickly
-    for t in range(ctx.scale(600, 6000)):
-        n = int(r.choice([4, 4, 5, 6, 7, 9, 12, 30]))
+    for t in range(ctx.scale(500, 3000)):
+        n = int(r.choice([4, 4, 5, 6, 7, 9, 12, 16, 30]))
         rec = Rec(int(r.randint(1 << 30)))
         q = call(pick_four_unique_nodes_quickly, n, rec)
         draws = [int(e[3]) for e in rec.log]
@@ -176,112 +292,226 @@ def run(ctx):
         pend.append(('pick4', case, q, None))
 
     # ---------- randmio_dir_signed / randmio_und_signed
-    for t in range(ctx.scale(150, 1500)):
-        for und in (0, 1):
-            fn = 'randmio_und_signed' if und else 'randmio_dir_signed'
-            A, fam = gen_matrix(ctx, und)
-            n = len(A)
-            itr = int(r.choice([0, 1, 1, 2, 2, 5]))
-            seed = int(r.randint(1 << 30))
-            rec = Rec(seed)
-            _verif.reset()
-            case = {'fn': fn, 'W': A.tolist(), 'itr': itr, 'seed': seed, 'family': fam}
-            try:
-                R, eff = call(getattr(bct, fn), A.astype(float), itr, seed=rec, _t=30.0)
-            except Exception as e:
-                ctx.case(case, nontrivial=False)
-                ctx.fail(fn + ':raises', 'raised %r' % (e,), case)
-                continue
-            events = [ev[1] for ev in _verif.LOG if ev[0] == 'swap']
-            ctx.case(case, nontrivial=eff > 0)
-            ctx.count('%s:%s' % (fn, fam)); ctx.count('%s:n=%d' % (fn, n)); ctx.count('%s:itr=%d' % (fn, itr))
-            ctx.count('%s:accepted_swaps' % fn, int(eff))
-            dc = 'same' if fam == 'diag' else 'empty'
-            ok = oracle_matrix(ctx, fn, A.tolist(), R.tolist(), und, case, diag_clause=dc)
-            ctx.check(eff == len(events), fn + ':eff', 'eff=%s but %d swaps were made' % (eff, len(events)), case)
+    def one_randmio(und, g, itr, rec, seed, tag=None):
+        fn = 'randmio_und_signed' if und else 'randmio_dir_signed'
+        A, Zm, scale, fam = g['A'], g['Z'], g['scale'], g['fam']
+        n = len(A)
+        _verif.reset()
+        case = {'fn': fn, 'W': A.tolist(), 'dtype': str(A.dtype), 'itr': itr, 'seed': seed, 'family': fam}
+        if tag:
+            case['first_draw'] = tag
+        exc = None
+        try:
+            R, eff = call(getattr(bct, fn), A.copy(), itr, seed=rec, _t=30.0)
+        except Timeout:
+            ctx.case(case, nontrivial=False)
+            ctx.fail(fn + ':raises', 'does not return within 30 s', case)
+            return
+        except Exception as e:
+            exc = e
+        ctx.count('%s:%s' % (fn, fam)); ctx.count('%s:n=%d' % (fn, n)); ctx.count('%s:itr=%d' % (fn, itr))
+        ctx.count('%s:weights=%s' % (fn, g['kind'])); ctx.count('%s:dtype=%s' % (fn, 'int' if g['isint'] else 'float'))
+        draws = [int(e[3]) for e in rec.log]
+        shape_ok = all(e[0] == 'randint' and tuple(e[1]) == (n ** 4,) for e in rec.log)
+        if exc is not None:
+            ctx.case(case, nontrivial=False)
+            if isinstance(exc, RecursionError) and n <= 3:
+                # no four distinct nodes exist: pick_four_unique_nodes_quickly recurses until the interpreter gives up
+                ctx.fail(fn + ':small_n', 'raised RecursionError on a network with %d nodes instead of returning it' % n, case)
+            else:
+                ctx.fail(fn + ':raises', 'raised %r' % (exc,), case)
+            if shape_ok:
+                lines.append('rs %d %s %d %s' % (und, enc_mat(Zm), itr, enc_list(draws)))
+                pend.append(('rs_raise', case, type(exc).__name__, None))
+            return
+        events = [ev[1] for ev in _verif.LOG if ev[0] == 'swap']
+        ctx.case(case, nontrivial=eff > 0)
+        ctx.count('%s:accepted_swaps' % fn, int(eff))
+        if fam not in ('asym', 'nearsym'):     # outside the quantifier (symmetric input for *_und): correspondence only
+            ok = oracle_matrix(ctx, fn, A.tolist(), R.tolist(), und, case, selfloops='kept')
+            ctx.check(all(R[i, i] == A[i, i] for i in range(n)), fn + ':diag_written', 'a diagonal entry was written', case)
             if ok:   # every intermediate state as well
                 for k, ev in enumerate(events):
-                    if not oracle_matrix(ctx, fn, A.tolist(), ev['R'].tolist(), und, case, what='after swap %d %s: ' % (k, tuple(int(x) for x in ev['abcd'])), diag_clause=dc):
+                    if not oracle_matrix(ctx, fn, A.tolist(), ev['R'].tolist(), und, case, what='after swap %d %s: ' % (k, tuple(int(x) for x in ev['abcd'])), selfloops='kept'):
                         break
-            shape_ok = all(e[0] == 'randint' and tuple(e[1]) == (n ** 4,) for e in rec.log)
-            if not shape_ok:
-                ctx.mismatch(fn + ':stream', 'draws other than randint(n**4) were made', case)
+        ctx.check(eff == len(events), fn + ':eff', 'eff=%s but %d swaps were made' % (eff, len(events)), case)
+        if not shape_ok:
+            ctx.mismatch(fn + ':stream', 'draws other than randint(n**4) were made', case)
+            return
+        lines.append('rs %d %s %d %s' % (und, enc_mat(Zm), itr, enc_list(draws)))
+        pend.append(('rs', case, (R, int(eff), events, scale), None))
+
+    for t in range(ctx.scale(130, 1000)):
+        for und in (0, 1):
+            u = r.rand()
+            if und and u < 0.04:
+                g = gen_nearsym(ctx)
+            elif und and u < 0.08:
+                g = gen_matrix(ctx, 0, 'mixed'); g['fam'] = 'asym'
+            else:
+                g = gen_matrix(ctx, und)
+            itr = int(r.choice(ITRS))
+            if len(g['A']) > 9 and itr > 3:
+                itr = 2
+            seed = int(r.randint(1 << 30))
+            one_randmio(und, g, itr, Rec(seed), seed)
+
+    # ---------- exhaustive small tier (n = 4): the first quad is prescribed, the rest of the stream is random
+    quads = [(a, b, c, d) for a in range(4) for b in range(4) for c in range(4) for d in range(4) if len({a, b, c, d}) == 4]
+    step = ctx.scale(24, 1)
+    off = int(r.randint(step))
+    for code in range(3 ** 6):
+        for qi, q in enumerate(quads):
+            if (code * 7 + qi) % step != off % step:
                 continue
-            draws = [int(e[3]) for e in rec.log]
-            lines.append('rs %d %s %d %s' % (und, enc_mat(A), itr, enc_list(draws)))
-            pend.append(('rs', case, (R, int(eff), events), None))
+            Z = pattern_und4(code, [int(x) for x in r.permutation(6) + 1])
+            g = {'A': Z.astype(float) / 2, 'Z': Z.tolist(), 'scale': 2, 'fam': 'exh4', 'isint': False, 'kind': 'dyadic'}
+            seed = int(r.randint(1 << 30))
+            k = q[0] + 4 * q[1] + 16 * q[2] + 64 * q[3]
+            one_randmio(1, g, 1, Scripted(seed, [k]), seed, tag=k)
+    step = ctx.scale(6, 1)
+    off = int(r.randint(step))
+    for qi, q in enumerate(quads):
+        a, b, c, d = q
+        for code in range(81):
+            if (qi * 81 + code) % step != off % step:
+                continue
+            Z = np.zeros((4, 4), dtype=np.int64)
+            mags = [int(x) for x in r.permutation(12) + 1]
+            cells = [(i, j) for i in range(4) for j in range(4) if i != j]
+            for (i, j), m in zip(cells, mags):
+                Z[i, j] = int(r.choice([0, 1, -1])) * m
+            for kk, (i, j) in enumerate(((a, b), (c, d), (a, d), (c, b))):
+                Z[i, j] = (0, 1, -1)[code // 3 ** kk % 3] * mags[cells.index((i, j))]
+            g = {'A': Z.astype(float) / 2, 'Z': Z.tolist(), 'scale': 2, 'fam': 'exh4', 'isint': False, 'kind': 'dyadic'}
+            seed = int(r.randint(1 << 30))
+            k = a + 4 * b + 16 * c + 64 * d
+            one_randmio(0, g, 1, Scripted(seed, [k]), seed, tag=k)
 
     # ---------- null_model_dir_sign / null_model_und_sign
-    wfs = [(F(0), 0.0), (F(1, 10), 0.1), (F(1, 2), 0.5), (F(1), 1.0), (F(2, 5), 0.4), (F(1, 4), 0.25), (F(3, 10), 0.3)]
-    for t in range(ctx.scale(250, 2500)):
-        for und in (0, 1):
-            fn = 'null_model_und_sign' if und else 'null_model_dir_sign'
-            A, fam = gen_matrix(ctx, und)
-            n = len(A)
-            bs = int(r.choice([0, 1, 2, 5]))
-            wfq, wf = wfs[int(r.randint(len(wfs)))]
-            seed = int(r.randint(1 << 30))
-            rec = Rec(seed)
-            _verif.reset()
-            case = {'fn': fn, 'W': A.tolist(), 'bin_swaps': bs, 'wei_freq': wf, 'seed': seed, 'family': fam}
-            try:
-                (W0, cc), olog = with_argsort_log(getattr(bct, fn), A.astype(float), bs, wf, seed=rec)
-            except Exception as e:
-                ctx.case(case, nontrivial=False)
-                ctx.fail(fn + ':raises', 'raised %r' % (e,), case)
-                continue
-            events = [ev[1] for ev in _verif.LOG if ev[0] == 'swap']
-            Ac = clear_diag(A)
-            nw = sum(1 for row in Ac for x in row if x != 0)
-            ctx.case(case, nontrivial=len(events) > 0 or nw >= 2)
-            ctx.count('%s:%s' % (fn, fam)); ctx.count('%s:n=%d' % (fn, n)); ctx.count('%s:bin_swaps=%d' % (fn, bs)); ctx.count('%s:wei_freq=%s' % (fn, wf))
-            ctx.count('%s:accepted_swaps' % fn, len(events))
+    def one_null(und, g, bs, wf, seed):
+        fn = 'null_model_und_sign' if und else 'null_model_dir_sign'
+        A, Zm, scale, fam = g['A'], g['Z'], g['scale'], g['fam']
+        n = len(A)
+        rec = Rec(seed)
+        _verif.reset()
+        case = {'fn': fn, 'W': A.tolist(), 'dtype': str(A.dtype), 'bin_swaps': bs, 'wei_freq': wf, 'seed': seed, 'family': fam}
+        out, exc, log = with_np_log(getattr(bct, fn), A.copy(), bs, wf, seed=rec)
+        ctx.count('%s:%s' % (fn, fam)); ctx.count('%s:n=%d' % (fn, n)); ctx.count('%s:bin_swaps=%d' % (fn, bs))
+        ctx.count('%s:wei_freq=%s' % (fn, wf if wf in WFS else 'random'))
+        ctx.count('%s:weights=%s' % (fn, g['kind'])); ctx.count('%s:dtype=%s' % (fn, 'int' if g['isint'] else 'float'))
+        kinds = [e[0] for e in rec.log]
+        ni = sum(1 for kd in kinds if kd == 'randint')
+        stream_ok = kinds == ['randint'] * ni + ['permutation'] * (len(kinds) - ni) and all(tuple(e[1]) == (n ** 4,) for e in rec.log[:ni])
+        ints = [int(e[3]) for e in rec.log[:ni]]
+        perms = [[int(x) for x in e[3]] for e in rec.log[ni:]]
+        close = bool(log['allclose'][-1]) if log['allclose'] else False
+        wfq = F(wf)                                    # the exact value of the binary64 argument
+        # np.round(1/wei_freq) is the LAST np.round of the call, provided the dealing phase was reached
+        reached = exc is None or not isinstance(exc, (RecursionError, bct.utils.BCTParamError))
+        pf = 0 if wf == 0 else int(log['round'][-1]) if (reached and log['round']) else int(np.round(1 / wf))
+        if wf != 0 and pf != int(round_half_even(1 / wfq)):
+            ctx.count('nm:float_period_differs_from_exact_rounding')
+        # the two float decisions handed to the model as oracles are cross-checked against an independent evaluation of
+        # the same binary64 expressions (deterministic, so no borderline cases)
+        if wf != 0 and pf != int(np.round(1 / wf)):
+            ctx.mismatch(fn + ':period', 'the run used wei_period=%d, np.round(1/wei_freq) is %d' % (pf, int(np.round(1 / wf))), case, int(np.round(1 / wf)), pf)
+        if und:
+            want = bool(np.allclose(A, A.T))
+            got = not isinstance(exc, bct.utils.BCTParamError) if exc is not None else True
+            if log['allclose'] and (close != want or got != want):
+                ctx.mismatch(fn + ':allclose', 'input %s by np.allclose(W, W.T) but the routine %s it' % ('symmetric' if want else 'not symmetric', 'accepted' if got else 'rejected'), case, want, got)
+        line = 'nm %d %s %d %d %d %s %d %s %s %s' % (und, enc_mat(Zm), g['isint'], close, bs, enc_q(wfq), pf, enc_list(ints), enc_mat(log['argsort']), enc_mat(perms))
+        symmetric = all(Zm[i][j] == Zm[j][i] for i in range(n) for j in range(n))
+        if exc is not None:
+            ctx.case(case, nontrivial=False)
+            nm = type(exc).__name__
+            if isinstance(exc, bct.utils.BCTParamError) and und and not symmetric:
+                ctx.count('null_model_und_sign:rejected')          # the contract: asymmetric input is refused
+            elif nm == 'UFuncTypeError' and g['isint'] and wf != 0:
+                ctx.fail(fn + ':int_dtype', 'raised %s on an integer-dtype matrix (wei_freq=%s): %s' % (nm, wf, str(exc)[:120]), case)
+            elif isinstance(exc, RecursionError) and n <= 3:
+                ctx.fail(fn + ':small_n', 'raised RecursionError on a network with %d nodes instead of returning' % n, case)
+            else:
+                ctx.fail(fn + ':raises', 'raised %r' % (exc,), case)
+            if stream_ok:
+                lines.append(line)
+                pend.append(('nm_raise', case, nm, None))
+            return
+        W0, cc = out
+        events = [ev[1] for ev in _verif.LOG if ev[0] == 'swap']
+        Ac = clear_diag(A.tolist())
+        nw = sum(1 for row in Ac for x in row if x != 0)
+        ctx.case(case, nontrivial=len(events) > 0 or nw >= 2)
+        ctx.count('%s:accepted_swaps' % fn, len(events))
+        if und and not symmetric:
+            ctx.count('null_model_und_sign:asymmetric_accepted_by_allclose')     # outside the quantifier: correspondence only
+        else:
             ok = oracle_matrix(ctx, fn, Ac, W0.tolist(), und, case)
             # the rewired sign pattern (every intermediate state of the inner rewiring) keeps the invariant too
             if ok:
                 for k, ev in enumerate(events):
                     if not oracle_matrix(ctx, fn, Ac, ev['R'].tolist(), und, case, what='rewiring state %d: ' % k):
                         break
-            # returned correlations = corrcoef of the strength sequences of (diagonal-cleared) input and output
+            # returned correlations = corrcoef of the strength sequences of (diagonal-cleared) input and output, and lie in [-1, 1]
             if ok:
-                sa, so = strengths(Ac), strengths([[int(x) for x in row] for row in W0.tolist()])
+                sa, so = strengths(Ac), strengths(W0.tolist())
                 for k, nm in enumerate(('rpos_in', 'rpos_out', 'rneg_in', 'rneg_out')):
                     c3 = corr3(sa[k], so[k])
-                    ctx.check(corr_close(c3, cc[k]), fn + ':corr', '%s returned %r, corrcoef of the strength sequences is %s' % (
-                        nm, float(cc[k]), 'nan' if c3[1] * c3[2] == 0 else c3[0] / math.sqrt(c3[1] * c3[2])), case)
-            kinds = [e[0] for e in rec.log]
-            ni = sum(1 for kd in kinds if kd == 'randint')
-            if kinds != ['randint'] * ni + ['permutation'] * (len(kinds) - ni) or not all(tuple(e[1]) == (n ** 4,) for e in rec.log[:ni]):
-                ctx.mismatch(fn + ':stream', 'recorded draws are not randint(n**4)* permutation*', case, None, kinds[:50])
-                continue
-            if wf != 0 and int(np.round(1 / wf)) != int(round_half_even(1 / wfq)):
-                continue
-            ints = [int(e[3]) for e in rec.log[:ni]]
-            perms = [[int(x) for x in e[3]] for e in rec.log[ni:]]
-            lines.append('nm %d %s %d %s %s %s %s' % (und, enc_mat(A), bs, enc_q(wfq), enc_list(ints), enc_mat(olog), enc_mat(perms)))
-            pend.append(('nm', case, (W0, cc, events), None))
+                    ctx.check(corr_close(c3, cc[k]), fn + ':corr', '%s returned %r, corrcoef of the strength sequences is %s' % (nm, float(cc[k]), corr_value(c3)), case)
+                    ctx.check(bool(np.isnan(cc[k])) or -1 - 1e-12 <= float(cc[k]) <= 1 + 1e-12, fn + ':corr', '%s = %r outside [-1, 1]' % (nm, float(cc[k])), case)
+                    if sa[k] == so[k] and c3[1] != 0:
+                        ctx.count('nm:strengths_kept')
+                        ctx.check(abs(float(cc[k]) - 1) <= 1e-9, fn + ':corr', '%s = %r although the strength sequence is unchanged' % (nm, float(cc[k])), case)
+        if not stream_ok:
+            ctx.mismatch(fn + ':stream', 'recorded draws are not randint(n**4)* permutation*', case, None, kinds[:50])
+            return
+        lines.append(line)
+        pend.append(('nm', case, (W0, cc, events, scale), None))
+
+    for t in range(ctx.scale(200, 1500)):
+        for und in (0, 1):
+            u = r.rand()
+            g = gen_nearsym(ctx) if (und and u < 0.06) else gen_matrix(ctx, und)
+            bs = int(r.choice([0, 1, 1, 2, 3, 5, 10]))
+            if len(g['A']) > 9 and bs > 3:
+                bs = 2
+            wf = float(WFS[int(r.randint(len(WFS)))]) if r.rand() < 0.8 else float(r.uniform(0.02, 1.0))
+            one_null(und, g, bs, wf, int(r.randint(1 << 30)))
+    # all sign patterns of a symmetric 4-node network through the undirected null model
+    step = ctx.scale(8, 1)
+    off = int(r.randint(step))
+    for code in range(3 ** 6):
+        if code % step != off:
+            continue
+        Z = pattern_und4(code, [int(x) for x in r.permutation(6) + 1])
+        g = {'A': Z.astype(float) / 2, 'Z': Z.tolist(), 'scale': 2, 'fam': 'exh4', 'isint': False, 'kind': 'dyadic'}
+        one_null(1, g, 1, float(WFS[code % len(WFS)]), int(r.randint(1 << 30)))
 
     # ---------- rejection clause: asymmetric input to the undirected null model
     for t in range(ctx.scale(10, 60)):
-        A, fam = gen_matrix(ctx, 0, 'mixed')
+        g = gen_matrix(ctx, 0, 'mixed', n=int(r.randint(4, 10)), allow_int=False)
+        A = g['A']
         if np.array_equal(A, A.T):
             continue
         case = {'fn': 'null_model_und_sign', 'W': A.tolist(), 'malformed': 'asymmetric'}
         ctx.case(case, nontrivial=True)
         ctx.count('null_model_und_sign:rejected')
         try:
-            call(bct.null_model_und_sign, A.astype(float), 1, 0.5, seed=Rec(1), _t=20.0)
+            call(bct.null_model_und_sign, A.copy(), 1, 0.5, seed=Rec(1), _t=20.0)
             ctx.fail('null_model_und_sign:reject', 'asymmetric input accepted', case)
         except bct.utils.BCTParamError:
             pass
         except Exception as e:
             ctx.fail('null_model_und_sign:reject', 'raised %r instead of BCTParamError' % (e,), case)
-        lines.append('nm 1 %s 1 1/2 0 0 0' % enc_mat(A))
-        pend.append(('nm_reject', case, None, None))
+        lines.append('nm 1 %s 0 0 1 1/2 2 0 0 0' % enc_mat(g['Z']))
+        pend.append(('nm_raise', case, 'BCTParamError', None))
 
     # ---------------- correspondence: extracted Coq model on the same inputs and draws
+    if os.environ.get("C06_DUMP"): open(os.environ["C06_DUMP"], "w").write("\n".join(lines) + "\n")
     res = run_model(ID, lines)
     ctx.model_cases = len(lines)
+    EXC = {'BCTParamError': 'ParamError', 'RecursionError': 'NoQuad', 'UFuncTypeError': 'CastError'}
     for (kind, case, impl, _), m in zip(pend, res):
         fn = case['fn']
         if is_err(m):
@@ -291,33 +521,49 @@ def run(ctx):
             if m is None or tuple(m[0]) != impl or m[1] != 0:
                 ctx.mismatch(fn, 'model %s / impl %s (unread draws must be 0)' % (m, impl), case, m, impl)
             continue
-        if kind == 'nm_reject':
-            if m is not None:
-                ctx.mismatch(fn + ':reject', 'model accepts asymmetric input', case)
+        if kind == 'rs_raise':
+            # the only way not to return that the model knows: the rewiring never gets four distinct nodes
+            if m is not None or impl != 'RecursionError':
+                ctx.mismatch(fn + ':raises', 'implementation raised %s, model %s' % (impl, 'returns' if m is not None else 'does not return (no four distinct nodes)'), case, None, impl)
+            else:
+                ctx.count('rs:raise_replayed')
+            continue
+        if kind == 'nm_raise':
+            got = m.get('raise') if isinstance(m, dict) else 'returns'
+            if EXC.get(impl) != got:
+                ctx.mismatch(fn + ':raises', 'implementation raised %s, model outcome %s' % (impl, got), case, got, impl)
+            else:
+                ctx.count('nm:raise_replayed:' + got)
             continue
         if kind == 'rs':
-            R, eff, events = impl
+            R, eff, events, scale = impl
+            if m is None:
+                ctx.mismatch(fn, 'model: the recorded draws run out (no four distinct nodes) but the implementation returned', case)
+                continue
             Rm, effm, rest, tr = m
-            if not np.array_equal(np.array(Rm).reshape(R.shape), R):
+            if not np.array_equal(unscale(Rm, scale).reshape(R.shape), R):
                 ctx.mismatch(fn, 'final matrices differ', case, Rm, R)
             elif effm != eff or rest != 0:
                 ctx.mismatch(fn + ':eff', 'model eff=%d unread=%d / impl eff=%d' % (effm, rest, eff), case, effm, eff)
             else:
-                cmp_trace(ctx, fn, case, tr, events)
+                cmp_trace(ctx, fn, case, tr, events, scale)
             continue
         if kind == 'nm':
-            W0, cc, events = impl
-            if m is None:
-                ctx.mismatch(fn, 'model rejects the recorded orders/draws (None) but the implementation returned', case)
+            W0, cc, events, scale = impl
+            if isinstance(m, dict):
+                ctx.mismatch(fn, 'model outcome %s on the recorded orders/draws but the implementation returned' % m.get('raise'), case)
                 continue
-            Wm, corr, Wr, tr = m
-            if not cmp_trace(ctx, fn, case, tr, events):
+            Wm, corr, Wr, tr, unread = m
+            if not cmp_trace(ctx, fn, case, tr, events, scale):
                 continue
-            if events and not np.array_equal(np.array(Wr), events[-1]['R']):
+            if events and not np.array_equal(unscale(Wr, scale), events[-1]['R']):
                 ctx.mismatch(fn + ':rewired', 'rewired matrix differs from the last swap event', case, Wr, events[-1]['R'])
                 continue
-            if not np.array_equal(np.array(Wm).reshape(W0.shape), W0):
+            if not np.array_equal(unscale(Wm, scale).reshape(W0.shape), W0):
                 ctx.mismatch(fn + ':deal', 'dealt matrices differ (same draws, same argsort orders)', case, Wm, W0)
+                continue
+            if list(unread) != [0, 0, 0]:
+                ctx.mismatch(fn + ':stream', 'model leaves recorded randint/argsort/permutation results unread: %s' % (unread,), case, unread, [0, 0, 0])
                 continue
             for k, c in enumerate(corr):
                 c3 = tuple(dec_z(x) for x in c)
@@ -328,12 +574,12 @@ def run(ctx):
                 ctx.count('nm:exact_replay_ok')
 
 
-def cmp_trace(ctx, fn, case, tr, events):
+def cmp_trace(ctx, fn, case, tr, events, scale=1):
     if len(tr) != len(events):
         ctx.mismatch(fn + ':swaps', 'model accepted %d swaps, implementation %d' % (len(tr), len(events)), case, len(tr), len(events))
         return False
     for k, ((q, M), ev) in enumerate(zip(tr, events)):
-        if tuple(q) != tuple(int(x) for x in ev['abcd']) or not np.array_equal(np.array(M), ev['R']):
+        if tuple(q) != tuple(int(x) for x in ev['abcd']) or not np.array_equal(unscale(M, scale), ev['R']):
             ctx.mismatch(fn + ':swap', 'state after accepted swap %d differs: model abcd=%s impl abcd=%s' % (k, q, tuple(int(x) for x in ev['abcd'])), case, M, ev['R'])
             return False
     return True
@@ -371,7 +617,8 @@ def replay(ctx, payload):
         ok = len(set(q)) == 4 and all(0 <= x < case['n'] for x in q)
         print('returned', q, 'OK' if ok else 'VIOLATED: not four distinct nodes < n')
         return 0 if ok else 1
-    A = np.array(case['W'])
+    A = np.array(case['W'], dtype=np.dtype(case.get('dtype', 'float64')))
+    n = len(A)
     und = fn.endswith('und_signed') or fn.endswith('und_sign')
     _verif.reset()
     if case.get('malformed'):
@@ -379,22 +626,29 @@ def replay(ctx, payload):
             bct.null_model_und_sign(A.astype(float), 1, 0.5, seed=Rec(1)); print('VIOLATED: asymmetric input accepted'); return 1
         except bct.utils.BCTParamError:
             print('rejected: OK'); return 0
-    if fn.startswith('randmio'):
-        R, eff = getattr(bct, fn)(A.astype(float), case['itr'], seed=Rec(case['seed']))
-        oracle_matrix(ctx, fn, A.tolist(), R.tolist(), und, case, diag_clause='same' if case.get('family') == 'diag' else 'empty')
-        print('output', R.tolist(), 'eff', eff)
-    else:
-        W0, cc = getattr(bct, fn)(A.astype(float), case['bin_swaps'], case['wei_freq'], seed=Rec(case['seed']))
-        Ac = clear_diag(A)
-        if oracle_matrix(ctx, fn, Ac, W0.tolist(), und, case):
-            sa, so = strengths(Ac), strengths([[int(x) for x in row] for row in W0.tolist()])
-            for k in range(4):
-                ctx.check(corr_close(corr3(sa[k], so[k]), cc[k]), fn + ':corr', 'correlation %d differs from corrcoef of the strength sequences' % k, case)
-        print('output', W0.tolist(), 'corr', [float(x) for x in cc])
+    rec = Scripted(case['seed'], [case['first_draw']]) if 'first_draw' in case else Rec(case['seed'])
+    try:
+        if fn.startswith('randmio'):
+            R, eff = getattr(bct, fn)(A.copy(), case['itr'], seed=rec)
+            oracle_matrix(ctx, fn, A.tolist(), R.tolist(), und, case, selfloops='kept')
+            ctx.check(all(R[i, i] == A[i, i] for i in range(n)), fn + ':diag_written', 'a diagonal entry was written', case)
+            print('output', R.tolist(), 'eff', eff)
+        else:
+            W0, cc = getattr(bct, fn)(A.copy(), case['bin_swaps'], case['wei_freq'], seed=rec)
+            Ac = clear_diag(A.tolist())
+            if oracle_matrix(ctx, fn, Ac, W0.tolist(), und, case):
+                sa, so = strengths(Ac), strengths(W0.tolist())
+                for k in range(4):
+                    ctx.check(corr_close(corr3(sa[k], so[k]), cc[k]), fn + ':corr', 'correlation %d differs from corrcoef of the strength sequences' % k, case)
+            print('output', W0.tolist(), 'corr', [float(x) for x in cc])
+    except Exception as e:
+        nm = type(e).__name__
+        key = (':int_dtype' if nm == 'UFuncTypeError' and A.dtype.kind in 'iu' else ':small_n' if isinstance(e, RecursionError) and n <= 3 else ':raises')
+        ctx.fail(fn + key, 'raised %s: %s' % (nm, str(e)[:160]), case)
     for f in ctx.oracle_fail:
         print('VIOLATED', f['key'], f['what'])
     for k, h in ctx.known_hits.items():
         print('KNOWN-FINDING', k, h['what'])
     if not ctx.oracle_fail:
-        print('all clauses hold on this input')
+        print('all clauses hold on this input' if not ctx.known_hits else 'no violation other than the known findings above')
     return 1 if ctx.oracle_fail else 0
